@@ -105,3 +105,17 @@ pub proof fn lemma_perm_keys(a: Seq<String>, b: Seq<String>, k: String)
         assert(a[q[i]] == k);
     }
 }
+
+// ---- the nom side of the registration closures, outlined (rule O).  ASSUMED nothing about the recognised text (C08);
+// the label handed back is an arbitrary string slice
+pub struct NomErr { pub _p: u8 }
+pub type IResult<I, O> = Result<(I, O), NomErr>;
+#[verifier::external_body]
+fn __o_nom_statement<'x>(input: &'x str) -> (r: IResult<&'x str, &'x str>) { unimplemented!() }
+// ASSUMED (std): HashMap<String, _>::contains_key(&str) looks the string up; String::from(&str) has the same characters
+#[verifier::external_body]
+fn __o_dict_has(dict: &HashMap<String, usize>, s: &str) -> (r: bool) ensures r == (exists|k: String| #[trigger] dict@.contains_key(k) && k@ == s@) { unimplemented!() }
+#[verifier::external_body]
+fn __o_string_from(s: &str) -> (r: String) ensures r@ == s@ { String::from(s) }
+#[verifier::external_body]
+fn __o_nom_ac<'x>(input: &'x str) -> (r: IResult<&'x str, (&'x str, Formula<'x>)>) { unimplemented!() }
